@@ -97,6 +97,7 @@ package tree
 // the outcome of the most recent AddLeaf (ghost observers for callers)
 //@ ghost var leafCalls int
 //@ ghost var lastLeafErr int
+//@ ghost var lastLeafIdx int
 
 // ghost view of the root table: one row per leaf position
 //@ ghost field rootHas map[int]bool
@@ -206,10 +207,11 @@ package tree
 //@   requires forall(h, 0, 32, bitAt(leaf.Index, h) ==> t.lastLeftCache[h] == solBranch(t)[h])
 //@   requires undoCnt(tx) == solCount(t) - txCount(t)
 //@   requires rollbackIndex(t.lastIndex, undoCnt(tx)) == -2 || (rollbackIndex(t.lastIndex, undoCnt(tx)) + 1 == txCount(t) && forall(h, 0, 32, bitAt(uint32(txCount(t)), h) ==> t.lastLeftCache[h] == txBranch(t)[h]))
-//@   modifies t.lastIndex, t.lastLeftCache, solBranch(t), solCount(t), rootHas(t.Tree), rootHash(t.Tree), rootBlock(t.Tree), rootPos(t.Tree), rhtHas(t.Tree), rhtL(t.Tree), rhtR(t.Tree), undoCnt(tx), leafCalls, lastLeafErr, stmtFail
+//@   modifies t.lastIndex, t.lastLeftCache, solBranch(t), solCount(t), rootHas(t.Tree), rootHash(t.Tree), rootBlock(t.Tree), rootPos(t.Tree), rhtHas(t.Tree), rhtL(t.Tree), rhtR(t.Tree), undoCnt(tx), leafCalls, lastLeafErr, lastLeafIdx, stmtFail
 //@   set leafCalls := old(leafCalls) + 1
 //@   set lastLeafErr := result
-//@   ensures[outcome-recorded] leafCalls == old(leafCalls) + 1 && lastLeafErr == result
+//@   set lastLeafIdx := leaf.Index
+//@   ensures[outcome-recorded] leafCalls == old(leafCalls) + 1 && lastLeafErr == result && lastLeafIdx == leaf.Index
 //@   ensures[rht-content-addressed] rhtOK(rhtHas(t.Tree), rhtL(t.Tree), rhtR(t.Tree))
 //@   ensures[success-means-stored] result == nil ==> stmtFail == old(stmtFail)
 // ghost code: on success the mirrored contract performs _addLeaf(leaf.Hash)
@@ -243,10 +245,11 @@ package tree
 //@   props C07 C14
 //@   requires t != nil && t.Tree != nil && tx != nil && len(t.zeroHashes) == 33
 //@   requires rhtOK(rhtHas(t.Tree), rhtL(t.Tree), rhtR(t.Tree))
-//@   modifies t.lastIndex, t.lastLeftCache, solBranch(t), solCount(t), rootHas(t.Tree), rootHash(t.Tree), rootBlock(t.Tree), rootPos(t.Tree), rhtHas(t.Tree), rhtL(t.Tree), rhtR(t.Tree), undoCnt(tx), leafCalls, lastLeafErr, stmtFail
+//@   modifies t.lastIndex, t.lastLeftCache, solBranch(t), solCount(t), rootHas(t.Tree), rootHash(t.Tree), rootBlock(t.Tree), rootPos(t.Tree), rhtHas(t.Tree), rhtL(t.Tree), rhtR(t.Tree), undoCnt(tx), leafCalls, lastLeafErr, lastLeafIdx, stmtFail
 //@   set leafCalls := old(leafCalls) + 1
 //@   set lastLeafErr := result
-//@   ensures[outcome-recorded] leafCalls == old(leafCalls) + 1 && lastLeafErr == result
+//@   set lastLeafIdx := leaf.Index
+//@   ensures[outcome-recorded] leafCalls == old(leafCalls) + 1 && lastLeafErr == result && lastLeafIdx == leaf.Index
 //@   ensures[rht-content-addressed] rhtOK(rhtHas(t.Tree), rhtL(t.Tree), rhtR(t.Tree))
 //@   ensures[success-means-stored] result == nil ==> stmtFail == old(stmtFail)
 //@   ensures[callback-iff-success] undoCnt(tx) == old(undoCnt(tx)) + ite(result == nil, 1, 0)
